@@ -1,6 +1,7 @@
 import ScrapliModel.Lemmas.Store
 import ScrapliModel.Lemmas.StoreTimed
 import ScrapliModel.Netconf.StoreSession
+import ScrapliModel.Lemmas.StoreSubs
 import ScrapliModel.Generated.BodiesNetconf
 import ScrapliModel.Generated.C08ReadLoop
 import ScrapliModel.Lemmas.BodiesStore
@@ -330,6 +331,104 @@ example : (filings .v11 [] [e11body ++ [10, 10] ++ r11body ++ [10], [], [], []])
 example : (filingsSkip .v11 [] [e11body ++ [10, 10] ++ r11body ++ [10], [], [], []]).1 = [] := by
   decide +kernel
 example : (filingsSkip .v10 [] [e10body ++ r10body ++ [10], [], []]).1 = [] := by decide +kernel
+
+/-! ## notifications: routed by subscription id, replies still reach their callers -/
+
+/-- the messages (replies, notifications, both, neither) contained in a list of deliveries -/
+def msgsOf (ds : List Delivery2) : List Msg := ds.flatMap (·.burst.msgs)
+def chunksOf2 (ds : List Delivery2) : List Bytes := ds.flatMap (·.chunks)
+
+/-- `notification_routing`: over any valid deliveries (echoes, replies, notifications, in any
+interleaving and segmentation) the read loop cuts out exactly the server's messages, one per
+message and in order, and what it hands to `storeMessage` / `storeSubscriptionMessage` are those
+cuts keyed by the server's `to` / `sub` (a message with `to = 0` is filed under no message-id, one
+with `sub = 0` under no subscription). -/
+theorem notification_routing (v : Ver) (ds : List Delivery2) (hv : ∀ d ∈ ds, d.valid v = true) :
+    ∃ cs, AllCut cs (msgsOf ds) ∧
+      (filings v [] (chunksOf2 ds)).1 = cs.filterMap keyOf ∧
+      subFilings v [] (chunksOf2 ds) = cs.filterMap subOf ∧
+      (∀ c m, CutFor c m → m ∈ msgsOf ds →
+        keyOf c = (if m.to != 0 then some (m.to, c) else none) ∧
+        subOf c = (if m.sub != 0 then some (m.sub, c) else none)) := by
+  obtain ⟨cs, lf', hc, _, hall⟩ := cut_framing ds [] hv (by rfl)
+  refine ⟨cs, hall, ?_, ?_, ?_⟩
+  · rw [filings_eq_cuts]; unfold chunksOf2; rw [hc]
+  · unfold subFilings chunksOf2; rw [hc]
+  · intro c m hcm hm
+    have hg := msgs_good hv m hm
+    exact ⟨keyOf_cut hg hcm, subOf_cut hg hcm⟩
+
+/-- `fetch_returns_own_with_notifications`: THE property with notifications interleaved anywhere
+(before, between, after replies; carrying a subscription id or not): every completed call
+returned an error or, byte for byte, the message the server sent in answer to that very request —
+never a notification (`to = 0`), never another request's reply. -/
+theorem fetch_returns_own_with_notifications (v : Ver) (evs : List Ev) (ds : List Delivery2)
+    (later : List Bytes) (hv : ∀ d ∈ ds, d.valid v = true)
+    (hreads : readsOf evs ++ later = chunksOf2 ds)
+    (id : Nat) (out : Option Bytes) (h : (id, out) ∈ (run v init evs).results) :
+    out = none ∨ ∃ c m, out = some c ∧ m ∈ msgsOf ds ∧ m.to = id ∧ m.to ≠ 0 ∧ CutFor c m := by
+  cases out with
+  | none => exact Or.inl rfl
+  | some c =>
+    right
+    have hmem := (run_init_inv v evs).res_sub _ _ h
+    have hmem' : (id, c) ∈ (filings v [] (chunksOf2 ds)).1 := by
+      rw [← hreads]; exact filings_prefix_mem hmem
+    obtain ⟨cs, hall, hfil, _, hkeys⟩ := notification_routing v ds hv
+    rw [hfil, List.mem_filterMap] at hmem'
+    obtain ⟨c', hc', hk⟩ := hmem'
+    obtain ⟨m, hm, hcm⟩ := hall.mem hc'
+    have := (hkeys c' m hcm hm).1
+    rw [this] at hk
+    by_cases h0 : m.to = 0
+    · simp [h0] at hk
+    · simp [h0] at hk
+      obtain ⟨h1, h2⟩ := hk
+      exact ⟨c, m, rfl, hm, h1, h0, by rw [← h2]; exact hcm⟩
+
+/-- `notifications_in_order_exactly_once`: for any interleaving of read-loop iterations and
+`GetSubscriptionMessages` calls (for any ids, at any moments) whose reads are the chunks of valid
+deliveries: what `GetSubscriptionMessages(id)` has handed out so far, concatenated in call order,
+followed by what still waits in the store, is exactly the server's messages of subscription `id`
+— each one once, in the order sent, nothing else (in particular no reply of another subscription
+and no plain reply). -/
+theorem notifications_in_order_exactly_once (v : Ver) (evs : List SEv) (ds : List Delivery2)
+    (hv : ∀ d ∈ ds, d.valid v = true) (hreads : sreadsOf evs = chunksOf2 ds)
+    (id : Nat) (hid : id ≠ 0) :
+    AllCut ((srun v sinit evs).delivered id ++ (srun v sinit evs).waiting id)
+      ((msgsOf ds).filter (fun m => m.sub == id)) := by
+  have hacc := srun_accounts v evs sinit id
+  simp only [sinit, SubClient.delivered, SubClient.waiting, List.filter_nil, List.flatMap_nil,
+    List.map_nil, List.append_nil, List.nil_append] at hacc
+  have hacc' : (srun v sinit evs).delivered id ++ (srun v sinit evs).waiting id =
+      ((subFilings v [] (sreadsOf evs)).filter (fun p => p.1 == id)).map (·.2) := by
+    simpa [sinit, SubClient.delivered, SubClient.waiting] using hacc
+  rw [hacc', hreads]
+  obtain ⟨cs, hall, _, hsub, _⟩ := notification_routing v ds hv
+  rw [hsub]
+  exact hall.sub_filter (msgs_good hv) id hid
+
+def n10abody : Bytes := [60, 110, 111, 116, 105, 102, 105, 99, 97, 116, 105, 111, 110, 62, 60, 115, 117, 98, 115, 99, 114, 105, 112, 116, 105, 111, 110, 45, 105, 100, 62, 55, 60, 47, 115, 117, 98, 115, 99, 114, 105, 112, 116, 105, 111, 110, 45, 105, 100, 62, 60, 115, 101, 113, 62, 49, 60, 47, 115, 101, 113, 62, 60, 47, 110, 111, 116, 105, 102, 105, 99, 97, 116, 105, 111, 110, 62, 93, 93, 62, 93, 93, 62]
+def n10bbody : Bytes := [60, 110, 111, 116, 105, 102, 105, 99, 97, 116, 105, 111, 110, 62, 60, 115, 117, 98, 115, 99, 114, 105, 112, 116, 105, 111, 110, 45, 105, 100, 62, 55, 60, 47, 115, 117, 98, 115, 99, 114, 105, 112, 116, 105, 111, 110, 45, 105, 100, 62, 60, 115, 101, 113, 62, 50, 60, 47, 115, 101, 113, 62, 60, 47, 110, 111, 116, 105, 102, 105, 99, 97, 116, 105, 111, 110, 62, 93, 93, 62, 93, 93, 62]
+def nbadbody : Bytes := [60, 110, 111, 116, 105, 102, 105, 99, 97, 116, 105, 111, 110, 62, 60, 115, 117, 98, 115, 99, 114, 105, 112, 116, 105, 111, 110, 45, 105, 100, 62, 55, 60, 47, 115, 117, 98, 115, 99, 114, 105, 112, 116, 105, 111, 110, 45, 105, 100, 62, 60, 120, 32, 109, 101, 115, 115, 97, 103, 101, 45, 105, 100, 61, 34, 49, 48, 49, 34, 47, 62, 60, 47, 110, 111, 116, 105, 102, 105, 99, 97, 116, 105, 111, 110, 62, 93, 93, 62, 93, 93, 62]
+
+/-- instances: 1.0, a notification of subscription 7, the reply to 101 (one byte short, then the
+rest), a second notification; the call gets its reply, `GetSubscriptionMessages(7)` the two
+notifications in order, a second call to it nothing -/
+def n10a : Msg := ⟨0, 7, n10abody, [10]⟩
+def n10b : Msg := ⟨0, 7, n10bbody, []⟩
+def dn1 : Delivery2 := ⟨.msgOnly n10a, [n10abody.take 30, n10abody.drop 30 ++ [10]]⟩
+def dn2 : Delivery2 := ⟨.msgOnly ⟨101, 0, r10body, [10]⟩, [r10body.take 34, r10body.drop 34 ++ [10]]⟩
+def dn3 : Delivery2 := ⟨.msgOnly n10b, [n10bbody]⟩
+example : dn1.valid .v10 = true ∧ dn2.valid .v10 = true ∧ dn3.valid .v10 = true := by decide +kernel
+example : (run .v10 init ([.call] ++ (chunksOf2 [dn1, dn2, dn3]).map .read ++ [.poll])).results
+    = [(101, some (r10body ++ [10]))] := by decide +kernel
+example : (srun .v10 sinit ((chunksOf2 [dn1, dn2, dn3]).map .read ++ [.get 7, .get 7])).got
+    = [(7, [n10abody ++ [10], n10bbody]), (7, [])] := by decide +kernel
+/-- a notification that carries the text `message-id="101"` is outside `goodMsg` (known finding
+C08-F26): the model, like the code, files it under 101 -/
+example : goodMsg .v10 ⟨0, 7, nbadbody, []⟩ = false := by decide +kernel
+example : (filings .v10 [] [nbadbody]).1 = [(101, nbadbody)] := by decide +kernel
 
 /-! ## histories: per-call deadlines (timed layer, `Netconf/StoreTimed.lean`) -/
 
